@@ -90,8 +90,8 @@ static void op_rsa_param(int argc, char **argv) {
 	if (bits < 16 || bits > RLC_BN_BITS) { fprintf(OUT, "bad-args\n"); return; }
 	seed_from(argv[2]);
 	RLC_TRY { rc = cp_rsa_gen(rsa_pub, rsa_prv, bits); } RLC_CATCH_ANY { caught = 1; }
-	if (take_err() || caught) { fprintf(OUT, "err\n"); return; }
-	rsa_ready = (rc == RLC_OK);
+	if (take_err() || caught || rc != RLC_OK) { fprintf(OUT, "err\n"); return; }
+	rsa_ready = 1;
 	rsa_print(rc);
 }
 
@@ -175,8 +175,8 @@ static void op_rabin_param(int argc, char **argv) {
 	if (bits < 16 || bits > RLC_BN_BITS) { fprintf(OUT, "bad-args\n"); return; }
 	seed_from(argv[2]);
 	RLC_TRY { rc = cp_rabin_gen(rab_pub, rab_prv, bits); } RLC_CATCH_ANY { caught = 1; }
-	if (take_err() || caught) { fprintf(OUT, "err\n"); return; }
-	rab_ready = (rc == RLC_OK);
+	if (take_err() || caught || rc != RLC_OK) { fprintf(OUT, "err\n"); return; }
+	rab_ready = 1;
 	fprintf(OUT, "rabin_param rc=%d", rc);
 	kv("n", rab_pub->n); kv("p", rab_prv->p); kv("q", rab_prv->q); kv("dp", rab_prv->dp); kv("dq", rab_prv->dq); kv("np", rab_prv->n);
 	fputc('\n', OUT);
